@@ -175,7 +175,7 @@ class JsonSchemaParser:
         any_of = schema.get('anyOf')
         one_of = schema.get('oneOf')
         all_of = schema.get('allOf')
-        not_of = schema.get('not')
+        not_of = schema.get('not', unprovided)
         const = schema.get('const', unprovided)
         enum = schema.get('enum')
         value = const if not unprovided(const) else enum[0] if enum else unprovided
@@ -234,7 +234,8 @@ class JsonSchemaParser:
             conditions.append(LogicalType.one_of(*[self.parse_type(cond) for cond in one_of]))
         if all_of:
             conditions.append(LogicalType.all_of(*[self.parse_type(cond) for cond in all_of]))
-        if not_of:
+        if isinstance(not_of, dict):
+            # {} is a schema too: nothing passes {'not': {}}
             conditions.append(LogicalType.not_of(self.parse_type(not_of)))
         if conditions:
             t = LogicalType.all_of(t, *conditions)
@@ -278,16 +279,23 @@ class JsonSchemaParser:
         if list(schema) == ['type'] and not constraints:
             return dict
         name = name or 'ObjectSchema'
-        properties = schema.get('properties') or {}
+        properties = dict(schema.get('properties') or {})
         required = schema.get('required') or []
         additional_properties = schema.get("additionalProperties", unprovided)
         min_properties = schema.get("minProperties", unprovided)
         max_properties = schema.get("maxProperties", unprovided)
         property_names = schema.get("propertyNames")
-        dependent_required = schema.get('dependentRequired')
+        dependent_required = schema.get('dependentRequired') or {}
         pattern_properties = schema.get("patternProperties")  # not supported now
 
-        if not properties:
+        # a name that "required" / "dependentRequired" mention without a property of its own is an
+        # additional property: it has to become a field (of the additional type) to be required
+        for key in [*required, *dependent_required, *[d for deps in dependent_required.values() for d in deps]]:
+            if key not in properties:
+                properties[key] = additional_properties if isinstance(additional_properties, dict) \
+                    else {'not': {}} if additional_properties is False else {}
+
+        if not properties and additional_properties is not False:
             if property_names:
                 key_obj = {'type': 'string'}
                 key_obj.update(property_names)
@@ -299,15 +307,17 @@ class JsonSchemaParser:
                 constraints.update(min_length=min_properties)
             if max_properties:
                 constraints.update(max_length=max_properties)
-            return self.annotate(dict, key_type, Any, constraints=constraints)
+            value_type = self.parse_type(additional_properties) if isinstance(additional_properties, dict) else Any
+            return self.annotate(dict, key_type, value_type, constraints=constraints)
 
         attrs = {}
         annotations = {}
         options = self.object_options_cls(
             max_params=max_properties,
             min_params=min_properties,
+            # without the keyword every additional property is allowed (and kept)
             addition=self.parse_type(additional_properties) if isinstance(additional_properties, dict)
-            else additional_properties,
+            else True if unprovided(additional_properties) else additional_properties,
         )
 
         for key, prop in properties.items():
@@ -351,6 +361,10 @@ class JsonSchemaParser:
         if description:
             attrs.update(__doc__=description)
         new_cls = self.object_meta_cls(name, (self.object_base_cls,), attrs)
+        for key, val in (constraints or {}).items():
+            # const / enum of an object: the instance is compared with the listed values as a dict
+            if key in ('const', 'enum'):
+                new_cls = Rule.annotate(new_cls, constraints={'enum': [val] if key == 'const' else val})
         return new_cls
 
     def register_ref(self, name: str, schema: dict) -> str:
